@@ -995,3 +995,10 @@ package main
 //@ fieldtag LdapConfig.DisablePasswordCache yaml "disable_password_cache"   #C07.cache-switch-read-from-the-documented-key @C07
 //@ fieldtag AppConfigFile.ProfileStorage yaml "profilestorage"   #C15.storage-section-read-from-the-documented-key @C15
 //@ fieldtag ProfileStorageConfig.StorageUrl yaml "storage_url"   #C15.storage-url-read-from-the-documented-key @C15
+
+// "the methods the operator listed", "the operator's administrators", "the deny list": what the configuration file
+// says. The parser fills these fields through reflection; no function of /repo stores to them afterwards (no default
+// copied in, no list rewritten at start-up or reload)
+//@ neverassigned baseConfig.AllowedAuthBackendsForCerts, baseConfig.AllowedAuthBackendsForWebUI   #C01.listed-methods-are-the-ones-the-file-lists @C01,C05
+//@ neverassigned baseConfig.AdminUsers, baseConfig.AdminGroups, baseConfig.AutomationAdmins, baseConfig.AutomationUsers, baseConfig.AutomationUserGroups   #C08.administrators-are-the-ones-the-file-lists @C08,C11
+//@ neverassigned DenyKeyConfig.KeyDenyFPsshSha256   #C06.deny-list-is-the-one-the-file-lists @C06
